@@ -10,7 +10,7 @@
    Vectors over Z_2 are [list bool] read with [get] (a missing tail is zero), so equality is [veq] (pointwise). *)
 From Coq Require Import ZArith List Bool Arith Sorting.Permutation.
 Require Import C07_Model C07_Gauss C07_Proofs C07_Skip C07_Ident.
-Require C07_Betti.
+Require C07_Betti C07_InsOnly.
 Import ListNotations.
 Open Scope Z_scope.
 
@@ -113,6 +113,24 @@ Theorem C07_alive_count_is_betti : forall s k i, valid s = true -> (i < length s
 Proof. exact C07_Betti.alive_count_is_betti. Qed.
 Print Assumptions C07_alive_count_is_betti.
 
+(* ---- A2. insertion-only sequences: the ranks of the specification are the persistent Betti numbers of ordinary persistence ---- *)
+(* [C07_InsOnly.cycles s k b] spans exactly the k-cycles of K_b ... *)
+Theorem C07_cycles_are_the_cycles : forall s k b v, valid s = true -> (b < length s)%nat ->
+  (span (C07_InsOnly.cycles s k b) v <->
+   exists cs, (forall c, In c cs -> In c (cells_of_dim s k (present s b))) /\ veq v (of_idx cs) /\
+              (forall j, get (of_idx (flat_map (bd_of s) cs)) j = false)).
+Proof. exact C07_InsOnly.cycles_are_the_cycles. Qed.
+Print Assumptions C07_cycles_are_the_cycles.
+
+(* ... and for every valid insertion-only sequence r_k(b,e) = dim (Z_k(K_b) + B_k(K_e)) - dim B_k(K_e)
+   = rank of H_k(K_b) -> H_k(K_e), the persistent Betti number ([pbetti]): on filtrations the zigzag specification IS
+   ordinary persistence in its rank formulation *)
+Theorem C07_insertion_only_ranks_are_persistent_betti_numbers : forall s k b e, valid s = true -> insertion_only s = true ->
+  (b <= e)%nat -> (e < length s)%nat ->
+  rfun (length s) (rtab s k) (Z.of_nat b) (Z.of_nat e) = C07_InsOnly.pbetti s k b e.
+Proof. exact C07_InsOnly.insertion_only_ranks. Qed.
+Print Assumptions C07_insertion_only_ranks_are_persistent_betti_numbers.
+
 (* identity arrows are transparent: no bar is born or dies at an identity arrow *)
 Theorem C07_no_death_at_identity : forall s k b e, (b <= e)%nat -> nth_error s (S e) = Some NId ->
   mult (rfun (length s) (rtab s k)) (Z.of_nat b) (Z.of_nat e) = 0.
@@ -205,7 +223,8 @@ Print Assumptions C07_arrow_numbering_aligned.
 
 (* ---- stated, NOT proved (each is evaluated by the oracle on every generated case: flags po, betti, mnn, fullres) ---- *)
 (* A2: an insertion-only sequence has the ordinary persistence pairing (certified reduction of coq/ReduceExec.v).
-   Missing: the link between the ranks of the relation sweep and the lows of a reduced matrix. *)
+   Proved above: the ranks are the persistent Betti numbers.  Missing: persistent Betti numbers -> pivot pairing of a reduced
+   matrix (the ELZ pairing theorem, trusted project-wide, DESIGN section 3/6) - evaluated per case (flag po). *)
 Definition C07_insertion_only_full : Prop := forall s l, valid s = true -> insertion_only s = true ->
   ordinary_bars s = Some l -> Permutation l (barcode s).
 (* multiplicities are never negative (true because r counts summands: the literature theorem) *)
